@@ -15,6 +15,40 @@ mod splitting;
 
 static OBJECT_COUNTER: AtomicU64 = AtomicU64::new(0);
 
+/// Verification hooks (off unless built with `--cfg googlefonts_fontations_verif`).
+#[cfg(googlefonts_fontations_verif)]
+pub mod verif {
+    use std::cell::RefCell;
+
+    thread_local! {
+        static TRACE: RefCell<Vec<&'static str>> = const { RefCell::new(Vec::new()) };
+    }
+
+    pub(crate) fn stage(name: &'static str) {
+        TRACE.with(|t| {
+            let mut t = t.borrow_mut();
+            if t.len() < 4096 {
+                t.push(name)
+            }
+        });
+    }
+
+    /// Take (and clear) the packing stages entered on this thread.
+    pub fn take_trace() -> Vec<&'static str> {
+        TRACE.with(|t| std::mem::take(&mut *t.borrow_mut()))
+    }
+
+    /// Advance the process-wide object id counter; returns the previous value.
+    pub fn bump_object_counter(n: u64) -> u64 {
+        super::OBJECT_COUNTER.fetch_add(n, std::sync::atomic::Ordering::Relaxed)
+    }
+
+    /// Current value of the process-wide object id counter.
+    pub fn object_counter() -> u64 {
+        super::OBJECT_COUNTER.load(std::sync::atomic::Ordering::Relaxed)
+    }
+}
+
 /// An identifier for an object in the compilation graph.
 #[derive(Debug, Clone, Copy, PartialOrd, Ord, Hash, PartialEq, Eq)]
 pub struct ObjectId(u64);
@@ -466,6 +500,8 @@ impl Graph {
     }
 
     fn sort_kahn(&mut self) {
+        #[cfg(googlefonts_fontations_verif)]
+        verif::stage("kahn");
         self.positions_invalid = true;
         if self.nodes.len() <= 1 {
             self.order.extend(self.nodes.keys().copied());
@@ -504,6 +540,8 @@ impl Graph {
     }
 
     pub(crate) fn sort_shortest_distance(&mut self) {
+        #[cfg(googlefonts_fontations_verif)]
+        verif::stage("shortest_distance");
         self.positions_invalid = true;
         self.update_parents();
         self.update_distances();
@@ -590,6 +628,8 @@ impl Graph {
     ///
     /// [assign_spaces]: https://github.com/harfbuzz/harfbuzz/blob/main/src/graph/graph.hh#L624
     fn assign_spaces_hb(&mut self) -> bool {
+        #[cfg(googlefonts_fontations_verif)]
+        verif::stage("assign_spaces");
         self.update_parents();
         let (visited, mut roots) = self.find_space_roots_hb();
 
@@ -711,6 +751,8 @@ impl Graph {
     ///
     /// [isolate_subgraph]: https://github.com/harfbuzz/harfbuzz/blob/main/src/graph/graph.hh#L508
     fn isolate_subgraph_hb(&mut self, roots: &mut BTreeSet<ObjectId>) -> bool {
+        #[cfg(googlefonts_fontations_verif)]
+        verif::stage("isolate_subgraph");
         self.update_parents();
 
         // map of object id -> number of incoming edges
@@ -865,6 +907,8 @@ impl Graph {
     }
 
     fn actually_promote_subtables(&mut self, to_promote: &[ObjectId]) {
+        #[cfg(googlefonts_fontations_verif)]
+        verif::stage("promote");
         fn make_extension(type_: LookupType, subtable_id: ObjectId) -> TableData {
             const EXT_FORMAT: u16 = 1;
             let mut data = TableData::new(TableType::Named("ExtensionPosFormat1"));
@@ -1058,6 +1102,8 @@ impl Graph {
     }
 
     fn split_subtables_if_needed(&mut self, lookup: ObjectId) {
+        #[cfg(googlefonts_fontations_verif)]
+        verif::stage("split_check");
         // So You Want to Split Subtables:
         // - support PairPos and MarkBase.
         let type_ = self.objects[&lookup].type_;
@@ -1106,6 +1152,8 @@ impl Graph {
         dupes: &mut HashMap<ObjectId, ObjectId>,
         space: Space,
     ) -> ObjectId {
+        #[cfg(googlefonts_fontations_verif)]
+        verif::stage("duplicate_subgraph");
         if let Some(existing) = dupes.get(&root) {
             return *existing;
         }
